@@ -13,7 +13,7 @@ from sim.loop import VirtualLoop
 
 PROP = 'C19'
 HASH_SENSITIVE = False
-CONTAINERS = ['list', 'tuple', 'dict', 'Dict', 'dictattr', 'OrderedDict']
+CONTAINERS = ['list', 'tuple', 'dict', 'Dict', 'dictattr', 'OrderedDict', 'UserDict', 'UserList']
 LEAF_KINDS = ['sleep', 'task', 'future', 'done', 'twostage', 'shared', 'nested', 'imm', 'custom', 'dep', 'gen']
 DELAYS = [0, 0, 1, 1, 2, 5, 3600]
 PLAIN = [None, 0, 1, 'x', 2.5, True, {'special': 'future_class'}, {'special': 'handle_class'}, {'special': 'nparray'}, {'special': 'nparray0'},
@@ -144,9 +144,9 @@ def generate(st):
         node = {'t': c, 'items': items, 'id': len(made)}
         # a container may appear twice only if everything in it can be awaited twice (coroutine objects cannot)
         made.append({'id': node['id'], 'ok': _multi_ok(node, leaves)})
-        if c not in ('list', 'tuple'):
+        if c not in ('list', 'tuple', 'UserList'):
             pool = ['a', 'b', 'c', 'd', 'e', 'k1', 'k2', 'f', 'g', 'h', 'i', 'j']
-            if c in ('dict', 'OrderedDict'):
+            if c in ('dict', 'OrderedDict', 'UserDict'):
                 pool = pool + [0, 1, 7]
                 if cfg.get('tuple_keys'):
                     pool = pool + [['a', 'b'], ['a', 0], [0, 1], [0, 0], ['b', 'c'], [1, 'a']]
@@ -241,10 +241,18 @@ class _Custom:
         return self.fut.__await__()
 
 
+class _Book(dict):
+    """a user's own mapping class: nothing overridden, in particular not copy()"""
+
+
+class _Rows(list):
+    """a user's own list class"""
+
+
 def _ctor(name):
     import pyg_base
     return {'list': list, 'tuple': tuple, 'dict': dict, 'Dict': pyg_base.Dict,
-            'dictattr': pyg_base.dictattr, 'OrderedDict': collections.OrderedDict}[name]
+            'dictattr': pyg_base.dictattr, 'OrderedDict': collections.OrderedDict, 'UserDict': _Book, 'UserList': _Rows}[name]
 
 
 def _keys(node):
@@ -521,7 +529,7 @@ def execute(trace, ctx=None):
         if t == 'leaf':
             return make_leaf(node['i'])
         items = [build(x) for x in node['items']]
-        if t in ('list', 'tuple'):
+        if t in ('list', 'tuple', 'UserList'):
             o = _ctor(t)(items)
         else:
             o = _ctor(t)(list(zip(_keys(node), items)))
@@ -550,7 +558,7 @@ def execute(trace, ctx=None):
                 by_id[node['id']] = o
             return o
         o = node_obj[id(node)]
-        if t == 'list':
+        if t in ('list', 'UserList'):
             o[:] = items
         else:
             o.clear()
@@ -583,7 +591,7 @@ def execute(trace, ctx=None):
                 return result_of(leaf['of'])
             return result_of(i)
         items = [expected(x) for x in node['items']]
-        if t in ('list', 'tuple'):
+        if t in ('list', 'tuple', 'UserList'):
             return _ctor(t)(items)
         return _ctor(t)(list(zip(_keys(node), items)))
 
@@ -833,7 +841,7 @@ def _same_skip(val, node, leaves, skip):
         return False
     if len(val) != len(node['items']):
         return False
-    if t in ('list', 'tuple'):
+    if t in ('list', 'tuple', 'UserList'):
         return all(_same_skip(v, n, leaves, skip) for v, n in zip(val, node['items']))
     if list(val.keys()) != _keys(node):
         return False
@@ -880,7 +888,7 @@ def _dict_out_of_order(node, leaves, finished):
         if leaf['kind'] == 'nested' and leaf.get('sub') is not None:
             return _dict_out_of_order(leaf['sub'], leaves, finished)
         return False
-    if t not in ('list', 'tuple'):
+    if t not in ('list', 'tuple', 'UserList'):
         ids = [x['i'] for x in node['items'] if x['t'] == 'leaf' and x['i'] in finished]
         pos = [finished.index(i) for i in ids]
         if any(pos[a] > pos[a + 1] for a in range(len(pos) - 1)):
